@@ -123,9 +123,16 @@ def _key(text, i):
     i = _skip_ws(text, i)
     m = _KEY.match(text, i)
     key = m.group(0)
-    if text[m.end() : m.end() + 1] == "\\":
-        raise Reject("R3: key with a dangling / doubled backslash")
-    return key, _skip_ws(text, m.end())
+    end = m.end()
+    if text[end : end + 1] == "\\":
+        # a backslash that is not part of an escape pair: legal only as the key's last character with whitespace
+        # after it (then it escapes nothing); directly before a delimiter or doubled it is excluded by R3
+        if end + 1 < len(text) and text[end + 1].isspace():
+            key += "\\"
+            end += 1
+        else:
+            raise Reject("R3: key with a dangling / doubled backslash")
+    return key, _skip_ws(text, end)
 
 
 def recognise(text):
